@@ -489,6 +489,17 @@ def drain (a b : Nat) (d : Direction) : LM Text := fun lb =>
   | .ok (x, y, z) => .ok (y, { lb with buf := x ++ z }, [.del a y d])
   | .error e => .error e
 
+/-- private `drain_around`: remove `a..b`, in which the cursor stood at `cursor` before the command
+    moved it to `a` -/
+def drainAround (a b cursor : Nat) : LM Text := do
+  if cursor ≤ a then drain a b .forward
+  else
+    let c := min cursor b
+    let lb ← get
+    let _ ← lift (slice lb.buf a c)   -- `&self.buf[range.start..cursor]`
+    let _ ← lift (slice lb.buf c b)   -- `&self.buf[cursor..range.end]`
+    drain a b (.around (c - a))
+
 /-- `insert_str` -/
 def insertStr (S : Segmenter) (U : UData) (idx : Nat) (s : Text) : LM Bool := fun lb =>
   match splitAtByte lb.buf idx with
@@ -879,8 +890,14 @@ def kill (S : Segmenter) (U : UData) (mvt : Movement) : LM Bool := do
     | .backwardChar n => backspace S U n
     | .endOfLine => killLine S U
     | .wholeLine => do
+      let cursor := (← get).pos
       let _ ← moveHome S U
-      killLine S U
+      let lb ← get
+      let e ← ro endOfLine
+      if lb.pos < e then
+        let _ ← drainAround lb.pos e cursor
+        pure true
+      else killLine S U
     | .beginningOfLine => discardLine S U
     | .backwardWord n d => deletePrevWord S U d n
     | .forwardWord n a d => deleteWord S U a d n
@@ -892,7 +909,9 @@ def kill (S : Segmenter) (U : UData) (mvt : Movement) : LM Bool := do
         let suf ← lift (sliceFrom lb.buf lb.pos)
         let last := (findChar '\n' suf).isNone
         let a := if last && a > 0 then a - 1 else a
-        deleteRange S U a b; pure true
+        setPosChecked S U a
+        let _ ← drainAround a b lb.pos
+        pure true
       | none => pure false
     | .lineDown n => do
       match ← ro (nLinesDown · n) with
@@ -901,14 +920,21 @@ def kill (S : Segmenter) (U : UData) (mvt : Movement) : LM Bool := do
         let mid ← lift (slice lb.buf a b)
         let last := decide ((mid.filter (· == '\n')).length ≤ n)
         let a := if last && a > 0 then a - 1 else a
-        deleteRange S U a b; pure true
+        setPosChecked S U a
+        let _ ← drainAround a b lb.pos
+        pure true
       | none => pure false
     | .viFirstPrint => pure false
     | .endOfBuffer => killBuffer S U
     | .beginningOfBuffer => discardBuffer S U
     | .wholeBuffer => do
+      let cursor := (← get).pos
       let _ ← moveBufferStart S U
-      killBuffer S U
+      let lb ← get
+      if lb.buf.isEmpty then pure false
+      else
+        let _ ← drainAround 0 lb.len cursor
+        pure true
   if notif then notify .stopKill
   return killed
 
